@@ -46,19 +46,20 @@ type genOpts struct {
 }
 
 type gen struct {
-	r       *hxlib.Rng
-	p       *Program
-	f       *Func
-	vars    []gvar
-	nameCtr int
-	iters   int // product of the enclosing loops' iteration counts
-	cost    int // rough gate estimate so far
-	opts    genOpts
-	palette []*Ty
-	hit     map[string]bool // defect shapes actually emitted
-	inBlock int             // nesting depth of if/for blocks
-	loops   int
-	called  map[*Func]bool
+	r        *hxlib.Rng
+	p        *Program
+	f        *Func
+	vars     []gvar
+	nameCtr  int
+	iters    int // product of the enclosing loops' iteration counts
+	cost     int // rough gate estimate so far
+	opts     genOpts
+	palette  []*Ty
+	hit      map[string]bool // defect shapes actually emitted
+	inBlock  int             // nesting depth of if/for blocks
+	loops    int
+	called   map[*Func]bool
+	constRet bool // every return of the current function returns literals
 }
 
 const costBudget = 60000
@@ -191,6 +192,14 @@ func maxLit(t *Ty) *big.Int {
 func (g *gen) litValue(t *Ty, nonzero bool) *big.Int {
 	m := maxLit(t)
 	var v *big.Int
+	// 0 and 1 (identity / absorbing elements: `x + 0`, `0 - x`, `x * 1`, `x & 0`) are
+	// where peephole rules of the front end live
+	if !nonzero && g.pct(22) {
+		if g.r.Bool() || m.Sign() == 0 {
+			return big.NewInt(0)
+		}
+		return big.NewInt(1)
+	}
 	switch g.pick(20, 15, 10, 10, 15, 30) {
 	case 0:
 		v = big.NewInt(int64(g.r.Intn(4)))
@@ -269,7 +278,7 @@ func (g *gen) typeConst(e *Expr, op string) {
 		// probe class emits such casts.
 		top := false
 		if e.K == "lit" {
-			top = e.N.BitLen() == e.T.W
+			top = constCastRisky(e.T, e.N)
 		} else {
 			top = !e.T.Signed()
 		}
@@ -282,6 +291,24 @@ func (g *gen) typeConst(e *Expr, op string) {
 		e.Typed = true
 		g.tag("typed_literal")
 	}
+}
+
+// constCastRisky: would the constant conversion T(n) meet defect F5?  The
+// constant `$n` has its own default width cb (32, 64 or its bit length).
+//   - T narrower than cb and the T-wide pattern of n has its top bit set: `$n`
+//     may get T's width and a later plain n is sign-extended from it;
+//   - T signed and wider than cb and bit cb-1 of n set (0xffffffff as int33):
+//     the cb-wide constant wires are sign-extended to T.
+func constCastRisky(t *Ty, n *big.Int) bool {
+	bl := n.BitLen()
+	cb := constBits(n)
+	switch {
+	case t.W < cb:
+		return bl == t.W
+	case t.W > cb:
+		return t.Signed() && bl == cb
+	}
+	return false
 }
 
 func lit32(k int) *Expr { return &Expr{K: "lit", T: tInt(32), N: big.NewInt(int64(k))} }
@@ -1267,9 +1294,17 @@ func (g *gen) stmtReturn(results []*Ty) []*Stmt {
 	var pre []*Stmt
 	var es []*Expr
 	for _, rt := range results {
-		e := g.expr(rt, g.opts.maxDepth, true)
-		if e != nil {
-			e = g.mixLive(rt, e)
+		var e *Expr
+		if rt.IsScalar() && (g.constRet || g.pct(6)) {
+			// `if c { return 1 }; return 2` (README 3party example): literal results
+			e = g.lit(rt, "", false)
+			g.tag("return_literal")
+		}
+		if e == nil {
+			e = g.expr(rt, g.opts.maxDepth, true)
+			if e != nil {
+				e = g.mixLive(rt, e)
+			}
 		}
 		if e == nil {
 			// aggregate result without a source: make one
@@ -1400,6 +1435,7 @@ func (g *gen) function(name string, index int, params []Param, results []*Ty, na
 	f := &Func{Name: name, Index: index, Params: params, Results: results}
 	g.f = f
 	g.vars = nil
+	g.constRet = g.pct(7)
 	g.nameCtr = 0
 	g.iters = 1
 	g.loops = 0
